@@ -18,6 +18,11 @@ CLAIMS = {
          '(postconditions on normal return), plain switching leaves the scale unchanged, rescaling divides it by each dropped prime in order, the BGV correction factor is multiplied by q_last^-1 mod t, '
          'and each result polynomial is the first (k-1)N words of the scheme\'s divide-and-round routine of the source level applied to the source polynomial. '
          'Not covered: that the divide-and-round routines preserve the message (C10 residue contracts are assumed here), noise.', '5 C05'),
+ 'C06': ('Three groups of contracts. (1) src/valcheck.rs: is_metadata_valid_for / is_buffer_valid / is_data_valid_for / is_valid_for of ciphertexts and plaintexts return exactly the validity predicate written from the property statement '
+         '(level on the data part of the chain, sizes match the level, size 0 or 2..16, scale and correction-factor rules per scheme, buffer length, every residue below its modulus). '
+         '(2) src/util/polysmallmod.rs: all 51 coefficient-wise primitives (modulo, negate, add, sub, scalar and operand variants, dyadic product; component, _p and _ps level, in-place and not) return word by word the exact residue, hence canonical residues. '
+         '(3) The mod-switch / rescale API of the evaluator refuses invalid operands and wrong representations and its three call forms satisfy the same result relation (shared with C05). '
+         'Not covered yet: validity of the results of add/sub/multiply/relinearize/Galois operations, key validity checkers.', '5 C06'),
  'C15': ('Serializers without context (scalars, Vec<T>, Modulus, ParmsID, SchemeType, Plaintext, EncryptionParameters, byte-width packing helpers) are verified '
          'against an abstract model of std::io::{Read,Write} quantified over all implementations: Ok implies the complete encoding was written / exactly one encoding '
          'consumed, and no unwrap/panic is reachable. Context-dependent objects (ciphertexts, keys, containers) are not covered.', '5 C15'),
@@ -30,7 +35,7 @@ NOT_APPLICABLE = {
  'C18': 'agreement across n parties and all message delivery orders is a whole-history property; the per-call code sits behind iterator closures, context plumbing and serialization and no contract within reach connects it to "keys correspond to the sum of secret keys"',
 }
 
-PENDING = ['C01', 'C02', 'C03', 'C04', 'C06', 'C07', 'C09', 'C10', 'C11', 'C12', 'C13', 'C16', 'C19', 'C20']
+PENDING = ['C01', 'C02', 'C03', 'C04', 'C07', 'C09', 'C10', 'C11', 'C12', 'C13', 'C16', 'C19', 'C20']
 
 
 def main():
